@@ -994,3 +994,66 @@ def no_shared_mutable_defaults_written(ctx):
                 f"`{short(bad, 50) if bad is not None else ''}` writes into the default object, which every call shares: two builds that generate code at the same time pick up each other's function",
             )
     ctx.require(n >= 1, "expected at least one mutable default argument in the package (instantiate_code's inject)")
+
+
+# ---------------------------------------------------------------------------------------- constants in generated code
+def inlined_constants_are_literals(ctx):
+    """Interpret the name database's lookup on values of many kinds: what it returns is either a name it registered
+    for the object, or source text that is a literal for an equal value of the same type."""
+    import enum
+    import math
+
+    repo = ctx.repo
+    gen = A.entry_generator(repo)
+    # the name database: the class the generators instantiate whose __getitem__ yields names
+    cands = []
+    for c in ast.walk(gen.node):
+        if isinstance(c, ast.Call) and isinstance(c.func, ast.Name):
+            r = repo.resolve_name(gen.module, c.func.id)
+            if r and r[0] == "class" and "__getitem__" in r[1].methods and r[1] not in cands:
+                cands.append(r[1])
+    ctx.require(len(cands) == 1, f"name database class not found ({[c.key for c in cands]})")
+    ndb = cands[0]
+    get = ndb.methods["__getitem__"]
+    ctx.touch(get)
+    methods = {n: m.node for cc in reversed(repo.class_mro(ndb)) for n, m in cc.methods.items()}
+
+    class Color(str, enum.Enum):
+        RED = "red"
+
+    class Level(enum.IntEnum):
+        LOW = 1
+
+    class Obj:
+        pass
+
+    values = [("an int", 3), ("a negative int", -3), ("a str", "it's"), ("a float", 2.5), ("infinity", math.inf), ("minus infinity", -math.inf), ("nan", math.nan), ("True", True), ("a str-mixin enum member", Color.RED), ("an IntEnum member", Level.LOW), ("an object", Obj()), ("a class", Obj), ("None", None)]
+    bad = None
+    n = 0
+    for what, v in values:
+        obj = Instance(ndb.name, methods)
+        hi = HostInterp({}, Record(), {}, globals_env={"count": lambda *a: Record(kind="counter")}, classes={ndb.name: methods}, functions={})
+        try:
+            hi.call_function(methods["__init__"], [obj, "INJECT"], {}, {})
+            got = hi.call_function(get.node, [obj, v], {}, {})
+        except (AnalysisError, Raised) as e:
+            raise AnalysisError(f"{get.key}: not interpretable for {what}: {e}")
+        n += 1
+        named = {k: val for k, val in obj.__dict__.items() if isinstance(val, dict)}
+        is_name = any(got in d and d[got] is v for d in named.values())
+        ok = is_name
+        if not ok and isinstance(got, str):
+            try:
+                back = ast.literal_eval(got)
+                ok = type(back) is type(v) and (back == v)
+            except (ValueError, SyntaxError):
+                ok = False
+        if not ok and bad is None:
+            bad = (what, v, got)
+    ctx.ob(
+        f"{get.key}:inlined-text-is-a-literal",
+        get.loc(),
+        f"a value is handed to generated code under a registered name, or as text that is a literal for an equal value of the same type ({n} kinds of values interpreted)",
+        bad is None,
+        (f"for {bad[0]} ({bad[1]!r}) the generated code contains `{bad[2]}`, which is not a literal for that value: a function with such a Literal fails with SyntaxError / NameError at its first call (or compares against another value)" if bad else ""),
+    )
